@@ -189,6 +189,7 @@ static void border_split(tree_instance* ti, border_node* const border,
         if (nl != nullptr) { nl->set_parent(new_border); }
         ++index_ctr;
         border->init_border(src_index);
+        YK_VP(k_store, border->get_lv_at(src_index), 8, 0);
         border->get_permutation().delete_rank(
                 remaining_size); // this is tricky.
     }
